@@ -68,3 +68,38 @@ class AddMetric:
 def task_untouched(self, old_task):
     return (CID in self.comp_data_tasks) == (old_task is not None) and (
         old_task is None or (self.comp_data_tasks[CID] is old_task and not old_task.cancel_requested))
+
+
+# ------------------------------------------------------------------ the request channel of the data sourcing actor
+DP = "frequenz.sdk.microgrid._data_pipeline"
+REQUEST_BUFFER = 500      # _REQUEST_RECV_BUFFER_SIZE: bursts of subscription requests up to this size are not dropped
+
+ChannelT = ExtObj("frequenz.channels.Broadcast", methods=dict(
+    new_receiver=dict(returns="rx", effects={"n_receivers": "self.n_receivers + 1",
+                                             "limit": "kwargs['limit'] if 'limit' in kwargs else 50"}),
+    new_sender=dict(returns="tx")), n_receivers=Int, limit=Int)
+SourcingActorT = ExtObj("DataSourcingActor", methods=dict(start=dict(effects={"n_started": "self.n_started + 1"})), n_started=Int)
+ActorFactoryT = ExtObj("DataSourcingActor factory", methods={"__call__": dict(returns="actor", effects={
+    "n_made": "self.n_made + 1", "given_receiver": "kwargs['request_receiver']"})}, n_made=Int, given_receiver=ExtObj("frequenz.channels.Receiver"))
+ActorInfoT = Rec(f"{DP}:_ActorInfo", actor=SourcingActorT, channel=ChannelT)
+PipelineT = Obj(f"{DP}:_DataPipeline", _data_sourcing_actor=Opt(ActorInfoT), _channel_registry=OpaqueT("registry"))
+
+
+@contract(f"{DP}:_DataPipeline._data_sourcing_request_sender")
+class RequestSender:
+    """The data sourcing actor is created once, started once, and reads subscription requests through a receiver
+    whose buffer is at least the documented request buffer: a burst of back-to-back subscriptions (every metric of
+    every component of a microgrid) must not lose requests - a lost request is a stream that never gets a sample."""
+    self_shape = PipelineT
+    ghost = dict(chan=ChannelT, rx=ExtObj("frequenz.channels.Receiver"), tx=ExtObj("frequenz.channels.Sender"),
+                 actor=SourcingActorT, make_actor=ActorFactoryT)
+    externals = {"frequenz.channels.Broadcast": "chan", f"{DS}.data_sourcing:DataSourcingActor": "call make_actor",
+                 f"{DS}:DataSourcingActor": "call make_actor"}
+    modifies = ["self._data_sourcing_actor", "chan", "actor", "make_actor"]
+    requires = dict(fresh="chan.n_receivers == 0 and actor.n_started == 0 and make_actor.n_made == 0")
+    ensures = dict(
+        created_and_started_once_when_missing="implies(old(self._data_sourcing_actor is None), make_actor.n_made == 1"
+                                              " and actor.n_started == 1 and chan.n_receivers == 1"
+                                              " and make_actor.given_receiver is rx)",
+        request_buffer_not_reduced="implies(old(self._data_sourcing_actor is None), chan.limit >= REQUEST_BUFFER)",
+    )
